@@ -1554,4 +1554,6 @@ pub fn c11(ctx: &Ctx, rep: &mut Report) {
         .into();
     rep.assumptions = sim_assumptions();
     ctx.prop(rep, "datagrams", ctx.tier.pick(40_000, 1_200_000), 300, || with_keepalive(c11_case()), run_c11);
+    // with keepalive configured (clock engine of C16, exact virtual time): a steady one-way datagram flow to a live peer
+    ctx.enumerate(rep, "datagram-flow-with-keepalive", super::keepalive::DATAGRAM_FLOW_CASES, 6, super::keepalive::datagram_flow_case, super::keepalive::check_datagram_flow);
 }
